@@ -364,6 +364,27 @@ theorem inListFold_noerr (d : Donor ℝ) (x : V3 ℝ) (l : List Int) (best : Int
       · simp only
         exact ih _ hv'
 
+theorem inListFold_error (d : Donor ℝ) (x : V3 ℝ) (l : List Int) (best : Int × ℝ) (e : ISt)
+    (h : inListFold d x l best = .error e) : e ≠ .ok := by
+  induction l generalizing best with
+  | nil => simp [inListFold] at h
+  | cons c rest ih =>
+    simp only [inListFold] at h
+    cases hca : d.cellAt c with
+    | none =>
+      simp only [hca, Except.error.injEq] at h
+      rw [← h]; simp
+    | some n =>
+      simp only [hca] at h
+      rcases hb : baryOf d n x with ⟨st, b⟩
+      rw [hb] at h
+      cases st with
+      | ok => exact ih _ h
+      | divZero => exact ih _ h
+      | failure => simp only [Except.error.injEq] at h; rw [← h]; simp [ISt.ofGeom]
+      | invalid => simp only [Except.error.injEq] at h; rw [← h]; simp [ISt.ofGeom]
+      | implement => simp only [Except.error.injEq] at h; rw [← h]; simp [ISt.ofGeom]
+
 /-! ## the walk -/
 
 theorem updateSeed_mode (d : Donor ℝ) (a : Agent ℝ) (face : List Nat) :
